@@ -354,3 +354,81 @@ package io
 //@   ensures [negative_length_is_an_error] utf16Length < 0 ==> dec.Error != nil
 //@   ensures [unsafe_result_is_a_view_of_the_window] !safe && data != nil ==> arr(data) == arr(dec.buf) && len(data) <= len(dec.buf)
 //@   ensures [safe_result_is_private] safe && data != nil ==> isnew(arr(data))
+
+// ---- element counts, reference tables (C04, C02) ---------------------------------------------
+
+//@ ghost rlen @int
+
+// ReadCount: what every list, map and class decoder allocates and loops by. Never negative;
+// in memory mode never more than the bytes that are left.
+//@ func (*Decoder).ReadCount
+//@   prop C04
+//@   nopanic
+//@   use decwf
+//@   modifies @DECWIN, dec.buf[*]
+//@   ensures [count_is_not_negative] count >= 0
+//@   ensures [memory_count_is_bounded_by_the_rest_of_the_input] dec.reader == nil ==> count <= dec.tail - dec.head
+//@   ensures [invalid_count_is_an_error] count == 0 || dec.Error == old(dec.Error) || old(dec.Error) == nil
+//@   ensures [stream_count_is_bounded_by_the_rest_of_the_stream] dec.reader != nil ==> count <= ghost.rlen[ival(dec.reader)] - (ghost.rpos[ival(dec.reader)] - dec.tail + dec.head)
+
+// only scalar decoding reads a bare integer; counts and lengths go through ReadCount / next /
+// readStringAsBytes, indices through ReadReference / getStructInfo, which validate them
+//@ rule callers (*Decoder).ReadInt allowed=(*Decoder).ReadCount,(*Decoder).ReadReference,(*Decoder).decodeInt,(*Decoder).decodeFloat32,(*Decoder).decodeFloat64,(*Decoder).decodeInterface,(*Decoder).readUnsafeBytes,(*Decoder).readBytes,(*Decoder).ReadStringAsBytes,(*Decoder).ReadUnsafeString,(*Decoder).ReadSafeString,(*Decoder).ReadObject,(*structDecoder).decodeObject,(mapDecoder).decodeObjectAsMap,(byteArrayDecoder).Decode,(*Decoder).fastDecode prop=C04
+
+// the table of referable items
+//@ func (*decoderRefer).Add
+//@   prop C04 C02
+//@   nopanic
+//@   requires r != nil
+//@   modifies r.ref, r.ref[*]
+//@   ensures [appended_at_the_end] len(r.ref) == old(len(r.ref)) + 1 && same(r.ref[len(r.ref) - 1], o)
+//@   ensures [earlier_items_keep_their_index] forall(i, 0, old(len(r.ref)), same(r.ref[i], old(r.ref[i])))
+
+//@ func (*decoderRefer).Last
+//@   prop C04 C02
+//@   nopanic
+//@   requires r != nil
+//@   ensures result == len(r.ref) - 1
+
+//@ func (*decoderRefer).Read
+//@   prop C04 C02
+//@   nopanic
+//@   requires r != nil
+//@   requires [index_within_the_table] 0 <= i && i < len(r.ref)
+//@   ensures same(result, r.ref[i])
+
+//@ func (*decoderRefer).Set
+//@   prop C04 C02
+//@   nopanic
+//@   requires r != nil
+//@   requires [index_within_the_table] 0 <= i && i < len(r.ref)
+//@   modifies r.ref[i]
+//@   ensures same(r.ref[i], o)
+
+//@ func (*decoderRefer).Reset
+//@   prop C04 C14
+//@   nopanic
+//@   requires r != nil
+//@   modifies r.ref
+//@   ensures [no_reference_of_the_last_use_is_visible] len(r.ref) == 0
+
+//@ func (*Decoder).LastReferenceIndex
+//@   prop C02
+//@   nopanic
+//@   requires dec != nil
+//@   ensures [index_of_the_item_added_last] result == ite(dec.simple, -1, len(dec.refer.ref) - 1)
+
+//@ func (*Decoder).IsSimple
+//@   prop C04
+//@   nopanic
+//@   requires dec != nil
+//@   ensures result == dec.simple
+
+// getStructInfo: any index off the wire; outside the table is an error and the empty class
+//@ func (*Decoder).getStructInfo
+//@   prop C04
+//@   nopanic
+//@   requires dec != nil
+//@   modifies dec.Error
+//@   ensures [index_outside_the_table_is_an_error] index < 0 || index >= len(dec.ref) ==> dec.Error != nil && len(result.names) == 0 && result.fields == nil
+//@   ensures [error_is_sticky] old(dec.Error) != nil ==> dec.Error != nil
